@@ -89,6 +89,12 @@ def docs():
     d.entity("ex:e1", {"ex:k": "l1\u2028l2\u2029l3\x85l4", "prov:label": Literal("a\u2028b", langtag="en")})
     out.append(("unicode-line-separators", d))
     d = new()
+    # text that Unicode normalisation would change: decomposed accents next to their composed twins (two different
+    # identifiers, two different values), compatibility characters (ANGSTROM SIGN, OHM SIGN, a CJK compatibility ideograph)
+    d.entity("ex:e\u0301", {"ex:k": "cafe\u0301 \u212b \u2126 \ufa10", "prov:label": Literal("e\u0301", langtag="fr")})
+    d.entity("ex:\u00e9", {"ex:k": "caf\u00e9 \u00c5 \u03a9 \u585a"})
+    out.append(("unicode-normal-forms", d))
+    d = new()
     d.agent("ex:g1")
     d.agent("ex:g2", {"prov:type": QualifiedName(Namespace("prov", "http://www.w3.org/ns/prov#"), "Person")})
     d.delegation("ex:g2", "ex:g1", identifier="ex:d1", other_attributes={"ex:k": "délégation"})
